@@ -4,6 +4,7 @@ import json, os
 ROOT = os.path.dirname(os.path.dirname(os.path.abspath(__file__)))
 TRUST = 'xmlsec1 is absent from the sandbox and replaced at saml2_tophat.sigver.Popen by the environment model vp/xmlsec.py (DESIGN 4); virtual clock and deterministic id source (vp/env.py); bounds as stated in evidence.'
 CHECKS = {
+ 'C20': ('fault_enumeration', 'For 30 operations (SP parse with every signature layout, two metadata certificates, two decryption keys, valid and invalid signatures; IdP request parsing; signed metadata load; response/request creation with signing and encryption) the fault-free invocation sequence at the xmlsec1 seam is learnt and every fault of a 23-entry catalogue is injected at every invocation ordinal and at every invocation (all pairs in thorough); the seam knows which invocations genuinely verified/decrypted what, so acceptance without a genuine verification, acceptance of a fault-free-rejected message, and unprotected output returned as protected are all detected.', '7 C20', 'exhaustive fault-plan enumeration at the process seam of the real code', TRUST),
  'C03': ('exploration', 'Complete product table over forged federations: metadata layout of the claimed issuer x claimed Issuer x actual signing key x embedded KeyInfo x signed element x only_use_keys_in_metadata, each validly-signed-by-that-key document through the real SP; acceptance is allowed only by the formula transcribed from the statement.', '7 C03', 'exhaustive product-table enumeration on the real SP path', TRUST),
  'C06': ('exploration', 'Complete product table of top-level status x second-level code (absent, 21 standard, unknown) x StatusMessage x payload, and the Version dimension on responses and on three request types over three bindings, through the real SP/IdP; the observed exception class is compared with an independent copy of the status-code table.', '7 C06', 'exhaustive product-table enumeration on the real SP/IdP paths', TRUST),
  'C05': ('exploration', 'Complete product table of response InResponseTo x confirmation InResponseTo x Destination x AudienceRestriction layouts x Recipient x plain/encrypted (x bindings in thorough), each forged signed document run through the real SP under all 8 settings of allow_unsolicited x conversation-info x destination pattern; one-directional oracle from the four necessary conditions of the statement plus came_from.', '7 C05', 'exhaustive product-table enumeration on the real SP path', TRUST),
